@@ -158,8 +158,8 @@ def _riemann_sequence(WL, WR, gam, flux, rname, iname, levels=(50, 100, 200, 400
             worst = 0.0
             for head, tail in fans:
                 w = tail - head
-                if head + 0.15 * w < 0.0 < tail - 0.15 * w:
-                    inside = (xi > head) & (xi < tail)
+                inside = (xi > head) & (xi < tail)
+                if head + 0.15 * w < 0.0 < tail - 0.15 * w and np.count_nonzero(inside) >= 4:
                     rng_ = abs(float(ex[0][inside][-1] - ex[0][inside][0])) + 1e-300
                     k0 = int(np.searchsorted(xc, 0.0))
                     k = np.arange(max(k0 - 3, 0), min(k0 + 2, n - 1))
@@ -192,11 +192,12 @@ def euler_riemann(ctx, rng, idx):
         ctx.info["fan_jump_finest_max"] = max(ctx.info.get("fan_jump_finest_max", 0.0), jumps[-1])
     cls = "riemann:" + flux
     ctx.true("finite", np.all(np.isfinite(errs)), "riemann/%s/not-finite" % flux, {"errors": errs}, cls=cls)
-    nz = [j for j in jumps if j > 0]
-    if len(nz) >= 2:
-        # the exact profile is smooth at the sonic point: the jump must shrink with the mesh (measured on the unchanged code: factor
-        # 0.45...0.62 per doubling); a standing expansion shock keeps the same jump on every mesh
-        ctx.true("rarefaction-resolved", nz[-1] <= 0.8 * nz[-2], "riemann/%s/%s/jump-inside-a-rarefaction-fan-does-not-shrink-under-refinement" % (flux, "first-order" if rname == "extrapol1" else "muscl"),
+    nz = [j for j in jumps if 0 < j < 1e6]
+    if len(nz) >= 3:
+        # the exact profile is smooth at the sonic point: the jump must shrink with the mesh -- over TWO doublings, because the sonic
+        # glitch of a first-order upwind scheme can shrink as slowly as 0.9 per doubling on the finest pair (thorough-tier witness:
+        # 0.69, 0.22, 0.20) while a standing expansion shock keeps the same jump on every mesh
+        ctx.true("rarefaction-resolved", nz[-1] <= 0.7 * nz[-3], "riemann/%s/%s/jump-inside-a-rarefaction-fan-does-not-shrink-under-refinement" % (flux, "first-order" if rname == "extrapol1" else "muscl"),
                  {"largest neighbour jump inside the fans / density variation of the fan, per level": jumps, "transonic": transonic}, cls=cls)
     ctx.true("monotone", np.all(ratios < 1.0), "riemann/%s/%s/error-not-decreasing-under-refinement" % (flux, "first-order" if rname == "extrapol1" else "muscl"), {"errors": errs, "ratios": ratios}, cls=cls)
     ctx.true("overall", errs[-1] / errs[0] <= 0.7, "riemann/%s/%s/no-overall-convergence" % (flux, "first-order" if rname == "extrapol1" else "muscl"), {"errors": errs}, cls=cls)
@@ -211,11 +212,12 @@ def reference_riemann(ctx, rng, idx):
     import flowdyn.solution.euler_riemann as sr
     gam = float(rng.choice([1.4, 5 / 3, 1.2, 1.3]))
     model = euler.euler1d(gamma=gam)
+    strong_ = False
     if idx % 5 == 0:
         pb = (sr.Sod_subsonic if idx % 10 == 0 else sr.Sod_supersonic)(model)
         WL, WR = tuple(pb.bcL()), tuple(pb.bcR())
     else:
-        strong = bool(rng.random() < 0.4)
+        strong = strong_ = bool(rng.random() < 0.4)
         WL, WR = _riemann_data(rng, gam, strong=strong)
         try:
             pb = sr.riemann(model, list(WL), list(WR))
@@ -247,7 +249,7 @@ def reference_riemann(ctx, rng, idx):
         smooth &= np.abs(a - b) <= 1e-4 * (np.abs(a) + np.abs(b) + 1e-300)
     for g, e, nm, sc in zip(got, (rho, u, p), ("density", "velocity", "pressure"), (rho, np.abs(u) + np.sqrt(gam * p / rho), p)):
         err = np.max(np.abs(np.asarray(g, float)[smooth] - e[smooth]) / sc[smooth])
-        ctx.close("ref:riemann", err, 1e-8, "reference/riemann/%s-differs-from-independent-exact-solver" % nm, {"WL": WL, "WR": WR, "gamma": gam}, cls="ref:riemann")
+        ctx.close("ref:riemann", err, 1e-7 if strong_ else 1e-8, "reference/riemann/%s-differs-from-independent-exact-solver" % nm, {"WL": WL, "WR": WR, "gamma": gam}, cls="ref:riemann")
     # fdata(): conservative field built from it, initial state (t=None) is the piecewise-constant data
     f0 = pb.fdata(mesh)
     ini = [f0.phydata("density"), f0.phydata("velocity"), f0.phydata("pressure")]
